@@ -290,3 +290,18 @@ func ReplayDir(harnesses map[string]func()) error {
 // predicate over an Opaque string (engine B turns the set of paths into the
 // regular language the predicate accepts).
 func Lang(name string, result bool) {}
+
+// MaxInt and IteInt are branch-free integer helpers for oracles.
+func MaxInt(a, b int) int {
+	if a > b {
+		return a
+	}
+	return b
+}
+
+func IteInt(c bool, a, b int) int {
+	if c {
+		return a
+	}
+	return b
+}
